@@ -263,7 +263,44 @@ def adler_kernels(ck, P, cfg):
                     rems += 1
         ck.decide(rems >= 2, "ATOM/adler-reduce", "%s@%s" % (name, cfg), "%d reductions mod BASE" % rems,
                   "Adler kernel %s reduces fewer than two sums modulo BASE" % fn.path, where(fn))
+        # ... and at the same places: wherever one running sum is reduced (inside the loop over NMAX-sized runs, or after it),
+        # the other one is reduced in the same loop as well - a sum that is carried unreduced through the runs overflows
+        for g in group:
+            by_loop = {}
+            for bi, si, lhs, rv, s in g.assignments():
+                e = g.rvalue_expr(rv)
+                if e[0] == "bin" and e[1] == "Rem" and mir.mentions_const(e[3], defname="BASE") and not lhs.get("p"):
+                    by_loop.setdefault(_innermost_loop(g, bi), set()).add(g.local_name(lhs["l"]) or lhs["l"])
+            for lp, names in sorted(by_loop.items(), key=lambda kv: str(kv[0])):
+                ck.decide(len(names) >= 2, "ATOM/adler-reduce", "%s@%s:%s:%s" % (name, cfg, g.path.split("::")[-1], "loop" if lp is not None else "tail"),
+                          "both sums reduced here (%s)" % sorted(map(str, names)),
+                          "%s reduces only %s modulo BASE %s: the other running sum is carried on unreduced and overflows 32 bits after a few "
+                          "runs of NMAX bytes" % (g.path, sorted(map(str, names)), "inside its loop over the runs" if lp is not None else "after its loop"),
+                          where(g))
     return found
+
+
+def _innermost_loop(fn, bb):
+    """header of the smallest natural loop containing bb, or None"""
+    best = None
+    for u in fn.live:
+        for lab, h in fn.succ[u]:
+            if h in fn.live and fn.dominates(h, u):
+                # natural loop of the back edge u -> h
+                body = {h}
+                work = [u]
+                preds = fn.preds()
+                while work:
+                    x = work.pop()
+                    if x in body:
+                        continue
+                    body.add(x)
+                    for p_, _l in preds.get(x, []):
+                        if p_ in fn.live:
+                            work.append(p_)
+                if bb in body and (best is None or len(body) < best[0]):
+                    best = (len(body), h)
+    return best[1] if best else None
 
 
 def dispatch_shape(ck, P, cfg):
